@@ -88,6 +88,11 @@ func NewWorld(sc *Scenario, emit Emitter) (*World, error) {
 			return nil, err
 		}
 	}
+	if sc.Topo.Name != "" {
+		if _, err := w.Kai.KaiV1alpha1().Topologies().Create(ctx, BuildTopology(sc), metav1.CreateOptions{}); err != nil {
+			return nil, err
+		}
+	}
 	prios := map[int]bool{}
 	for j := range sc.Jobs {
 		w.jobIndex[sc.Jobs[j].Name] = j + 1
@@ -677,7 +682,7 @@ func Run(sc *Scenario, emit Emitter) error {
 	}
 	defer w.Close()
 	emit(map[string]any{"ev": "Scenario", "id": sc.ID, "class": sc.Class, "cfg": sc.Cfg, "nodes": sc.Nodes, "queues": sc.Queues,
-		"jobs": sc.Jobs, "pods": sc.Pods})
+		"jobs": sc.Jobs, "pods": sc.Pods, "topo": sc.Topo})
 	for c := 1; c <= sc.Cfg.Cycles; c++ {
 		if err := w.RunCycle(c); err != nil {
 			return err
